@@ -787,7 +787,10 @@ func c10FaultsCode128(c *Ctx) {
 				c2[pos] = v
 				out, res := c10ReadRow(rd, c10Row(c10DrawCode128(c2), g.scale, g.left, g.right), nil)
 				in := fmt.Sprintf("%s pos=%d value=%d", src, pos, v)
-				c.Oracle("code128", res == nil || res.GetText() == orig, "code128-substitution-read", in,
+				// strict: the substituted symbol's check character does not verify (theorem
+				// code128_reader_rejects_substitution, all weights here are < 103), so it must not be returned at
+				// all — not even with the original text
+				c.Oracle("code128", res == nil, "code128-substitution-read", in,
 					fmt.Sprintf("reader: %s (original text %q)", out, orig))
 				switch {
 				case res != nil:
@@ -843,7 +846,8 @@ func c10FaultsCode93(c *Ctx) {
 				v2[pos] = v
 				out, res := c10ReadRow(rd, c10Row(c10DrawCode93(v2), g.scale, g.left, g.right), nil)
 				in := fmt.Sprintf("%s pos=%d value=%d", src, pos, v)
-				c.Oracle("code93", res == nil || res.GetText() == content, "code93-substitution-read", in,
+				// strict: C or K of the substituted symbol does not verify (theorem code93_detects_single_substitution)
+				c.Oracle("code93", res == nil, "code93-substitution-read", in,
 					fmt.Sprintf("reader: %s (original text %q)", out, content))
 				switch {
 				case res != nil || out == "ERR:format":
